@@ -98,6 +98,7 @@ deriving Repr, DecidableEq
 inductive LoadErr where
   | missing (what : String)
   | nonMonotone
+  | conflict (what : String)      -- two candidate files for one attribute where the loader accepts only one
 deriving Repr, DecidableEq
 
 /-- `np.all(np.diff(x) >= 0)` on the cells of a vector (NaN compares false) -/
@@ -120,7 +121,9 @@ def zeroNanTemplates (a : Arr) : Arr :=
 def load (inv : Arr → Arr) (d : Dir) : Except LoadErr (View × Dir) := do
   -- spike samples / times
   let (times, samples, tcells) ← match d.lookup "spike_times.npy" with
-    | some s => pure (TimeSrc.samplesOverRate (squeeze s), SampleSrc.file (squeeze s), (squeeze s).data)
+    | some s =>
+      -- `_read_array` scrubs NaN/inf here too (a float `spike_times.npy`)
+      pure (TimeSrc.samplesOverRate (squeeze (scrub s)), SampleSrc.file (squeeze (scrub s)), (scrub s).data)
     | none =>
       match readFile d ["spikes.times*.npy"] with
       | none => throw (.missing "spike times")
@@ -134,6 +137,9 @@ def load (inv : Arr → Arr) (d : Dir) : Except LoadErr (View × Dir) := do
     | some a => pure (squeeze (scrub a))
     | none => throw (.missing "spike templates")
   -- spike clusters: copy of the spike-template file when absent
+  -- `_find_path(..., multiple_ok=False)`: a directory holding both names is refused
+  if (findPath d ["spike_clusters.npy"]).isSome && (findPath d ["spikes.clusters*.npy"]).isSome then
+    throw (.conflict "spike clusters")
   let (sc, d1) ← match findPath d ["spike_clusters.npy", "spikes.clusters*.npy"] with
     | some f => match d.lookup f with
       | some a => pure (squeeze (scrub a), d)
